@@ -1,5 +1,5 @@
 use std::panic;
-use std::sync::Arc;
+use std::sync::{Arc, RwLock, RwLockReadGuard, RwLockWriteGuard};
 
 use anyhow::{bail, Result};
 use crossbeam_channel::{select, Receiver, Sender};
@@ -39,7 +39,9 @@ pub struct ServerConfig {
 
 #[derive(Clone)]
 pub struct Router {
-    server: Arc<Server>,
+    // request workers read the server concurrently; edit notifications take the write side and
+    // therefore wait for the requests that are being computed instead of being dropped
+    server: Arc<RwLock<Server>>,
     sender: Sender<Message>,
 }
 
@@ -52,6 +54,15 @@ impl Router {
         self.sender.send(message).unwrap()
     }
 
+    // a panic while the lock was held (it is caught by the loop) must not take the server down
+    fn read_server(&self) -> RwLockReadGuard<'_, Server> {
+        self.server.read().unwrap_or_else(|e| e.into_inner())
+    }
+
+    fn write_server(&self) -> RwLockWriteGuard<'_, Server> {
+        self.server.write().unwrap_or_else(|e| e.into_inner())
+    }
+
     pub fn new(sender: Sender<Message>, config: ServerConfig) -> Self {
         debug!(
             "initializing LSP database at {}, with {} docs",
@@ -60,7 +71,7 @@ impl Router {
         );
 
         let router = Self {
-            server: Arc::new(Server::new(config)),
+            server: Arc::new(RwLock::new(Server::new(config))),
             sender,
         };
 
@@ -140,14 +151,12 @@ impl Router {
         match notification.method.as_str() {
             "textDocument/didChange" => {
                 let params = DidChangeTextDocumentParams::deserialize(notification.params).unwrap();
-                Arc::get_mut(&mut self.server)
-                    .unwrap()
+                self.write_server()
                     .handle_did_change_text_document(params);
             }
             "textDocument/didSave" => {
                 let params = DidSaveTextDocumentParams::deserialize(notification.params).unwrap();
-                Arc::get_mut(&mut self.server)
-                    .unwrap()
+                self.write_server()
                     .handle_did_save_text_document(params);
             }
             default => {
@@ -178,7 +187,7 @@ impl Router {
 
         if request.method.eq("workspace/executeCommand") {
             let params = ExecuteCommandParams::deserialize(request.params).unwrap();
-            let result = self.server.handle_workspace_command(params);
+            let result = self.read_server().handle_workspace_command(params);
 
             self.send(Message::Request(Request {
                 id: Uuid::new_v4().to_string().into(),
@@ -194,45 +203,47 @@ impl Router {
             id: hook_id.clone(),
         });
 
+        let server = self.read_server();
+
         let response = match request.method.as_str() {
             "textDocument/inlayHint" => InlayHintParams::deserialize(request.params)
-                .map(|params| self.server.handle_inlay_hints(params))
+                .map(|params| server.handle_inlay_hints(params))
                 .map(|response| to_value(response).unwrap()),
             "textDocument/inlineValues" => InlineValueParams::deserialize(request.params)
-                .map(|params| self.server.handle_inline_values(params))
+                .map(|params| server.handle_inline_values(params))
                 .map(|response| to_value(response).unwrap()),
             "textDocument/documentSymbol" => DocumentSymbolParams::deserialize(request.params)
-                .map(|params| self.server.handle_document_symbols(params))
+                .map(|params| server.handle_document_symbols(params))
                 .map(|response| to_value(response).unwrap()),
             "textDocument/definition" => GotoDefinitionParams::deserialize(request.params)
-                .map(|params| self.server.handle_goto_definition(params))
+                .map(|params| server.handle_goto_definition(params))
                 .map(|response| to_value(response).unwrap()),
             "workspace/symbol" => WorkspaceSymbolParams::deserialize(request.params)
-                .map(|params| self.server.handle_workspace_symbols(params))
+                .map(|params| server.handle_workspace_symbols(params))
                 .map(|response| to_value(response).unwrap()),
             "textDocument/completion" => CompletionParams::deserialize(request.params)
-                .map(|params| self.server.handle_completion(params))
+                .map(|params| server.handle_completion(params))
                 .map(|response| to_value(response).unwrap()),
             "completionItem/resolve" => CompletionItem::deserialize(request.params)
-                .map(|params| self.server.resolve_completion(params))
+                .map(|params| server.resolve_completion(params))
                 .map(|response| to_value(response).unwrap()),
             "textDocument/codeAction" => CodeActionParams::deserialize(request.params)
-                .map(|params| self.server.handle_code_action(&params))
+                .map(|params| server.handle_code_action(&params))
                 .map(|response| to_value(response).unwrap()),
             "codeAction/resolve" => CodeAction::deserialize(request.params)
-                .map(|params| self.server.handle_code_action_resolve(&params))
+                .map(|params| server.handle_code_action_resolve(&params))
                 .map(|response| to_value(response).unwrap()),
             "textDocument/formatting" => DocumentFormattingParams::deserialize(request.params)
-                .map(|params| self.server.handle_document_formatting(params))
+                .map(|params| server.handle_document_formatting(params))
                 .map(|response| to_value(response).unwrap()),
             "textDocument/references" => ReferenceParams::deserialize(request.params)
-                .map(|params| self.server.handle_references(params))
+                .map(|params| server.handle_references(params))
                 .map(|response| to_value(response).unwrap()),
             "textDocument/prepareRename" => TextDocumentPositionParams::deserialize(request.params)
-                .map(|params| self.server.handle_prepare_rename(params))
+                .map(|params| server.handle_prepare_rename(params))
                 .map(|response| to_value(response).unwrap()),
             "textDocument/rename" => RenameParams::deserialize(request.params).map(|params| {
-                match self.server.handle_rename(params) {
+                match server.handle_rename(params) {
                     Ok(response) => to_value(response).unwrap(),
                     Err(err) => to_value(err).unwrap(),
                 }
@@ -241,6 +252,8 @@ impl Router {
                 panic!("unhandled request: {}", default)
             }
         };
+
+        drop(server);
 
         // schedule update
 
